@@ -5,7 +5,9 @@ package main
 import (
 	"go/token"
 	"go/types"
+	"os"
 	"sort"
+	"strconv"
 	"strings"
 
 	"golang.org/x/tools/go/ssa"
@@ -344,9 +346,16 @@ func fieldLoad(r ssa.Value, typ, field string) ssa.Value {
 }
 
 // short renders a (possibly long) descriptor for messages.
+var shortLimit = func() int {
+	if n, err := strconv.Atoi(os.Getenv("GGV_SHORT")); err == nil && n > 0 {
+		return n
+	}
+	return 220
+}()
+
 func short(s string) string {
-	if len(s) > 220 {
-		return s[:220] + "…"
+	if len(s) > shortLimit {
+		return s[:shortLimit] + "…"
 	}
 	return s
 }
